@@ -826,5 +826,19 @@ def no_stale(ctx):
                        'aberration terms no longer describe the current lens')
 
 
-RULES = [no_stale, lazy_def_use, location, formulas_and_degrees, identities,
+def c01_media_chain(ctx):
+    """shared with C01: the prescription this property reads (media on both
+    sides of each surface, placement and tilt of the surface frames) is the
+    one the editing API was given."""
+    from .C01 import media_chain as _r
+    return _r(ctx)
+
+
+def c04_invariant(ctx):
+    """shared with C04: the Lagrange invariant that scales the Seidel terms"""
+    from .C04 import mag_inv as _r
+    return _r(ctx)
+
+
+RULES = [c04_invariant, c01_media_chain, no_stale, lazy_def_use, location, formulas_and_degrees, identities,
          operand_wrap]
